@@ -783,6 +783,13 @@ def run_confusion(job, io):
         fns.append(('PyTreeSpec.' + name, ('method', name)))
     fns.append(('PyTreeIter', _C.PyTreeIter))
     fns.append(('PyTreeIter.__next__', ('iter', '__next__')))
+    # the Python layer's public functions too: they pre-process arguments (zip treespecs, build inner treespecs, wrap callables)
+    # before the engine sees them, so a wrong-typed argument reaches engine paths the raw entry points do not
+    for name in sorted(optree.__all__):
+        obj = getattr(optree, name)
+        if (callable(obj) and not isinstance(obj, type) and not name.startswith(('register_', 'unregister_', 'dict_insertion'))
+                and getattr(obj, '__module__', '').startswith('optree')):
+            fns.append(('optree.' + name, obj))
     # ---- deterministic sub-sweeps with a functional oracle: child / entry indices and unflatten leaf counts
     ctx = gen.swarm_ctx(tape)
     for _ in range(3):
@@ -898,7 +905,7 @@ def run_confusion(job, io):
         args = [pool[tape.draw(len(pool), 'arg')] for _ in range(nargs)]
         kwargs = {}
         if tape.draw(4, 'kw?') == 3:
-            kwname = tape.choice(('none_is_leaf', 'namespace', 'leaf_predicate', 'strict', 'f_node', 'f_leaf', 'bogus'), 'kwname')
+            kwname = tape.choice(('none_is_leaf', 'namespace', 'leaf_predicate', 'strict', 'f_node', 'f_leaf', 'bogus', 'is_leaf', 'inner_treespec', 'default', 'key', 'maxlen'), 'kwname')
             kwargs[kwname] = pool[tape.draw(len(pool), 'kwarg')]
         io.progress({'site': 'confusion:%s' % fname, 'tape': tape.values})
         try:
